@@ -18,6 +18,9 @@ type (
 	}
 )
 
+// preCommitDataSize is the size of PreCommit data (a serialized magic).
+const preCommitDataSize = 4
+
 var _ dbft.PreCommit = (*preCommit)(nil)
 
 // EncodeBinary implements Serializable interface.
@@ -39,7 +42,7 @@ func (c *preCommit) DecodeBinary(r *gob.Decoder) error {
 
 // Data implements PreCommit interface.
 func (c preCommit) Data() []byte {
-	res := make([]byte, 4)
+	res := make([]byte, preCommitDataSize)
 	binary.BigEndian.PutUint32(res, c.magic)
 	return res
 }
